@@ -58,7 +58,7 @@ package dawn
 //@   ensures  accounted: printed_len + len(sb[l]) == old(printed_len) + len(old(sb)[l]) + len(b)
 //@   ensures  pending-oneline: forall i: int :: 0 <= i && i < len(sb[l]) ==> sb[l][i] != 10
 //@   ensures  others: forall o: ref :: o != l ==> sb[o] == old(sb)[o]
-//@   modifies sb, n_print, printed_len
+//@   modifies sb, lx, n_print, printed_len
 //@   loop 0: invariant count: w + len(b) == len(old(b)) && w >= 0
 //@   loop 0: invariant accounted: printed_len + len(sb[l]) + len(b) == old(printed_len) + len(old(sb)[l]) + len(old(b))
 //@   loop 0: invariant pending-oneline: forall i: int :: 0 <= i && i < len(sb[l]) ==> sb[l][i] != 10
@@ -71,7 +71,7 @@ package dawn
 //@   ensures  delivered-once: n_print == old(n_print) + ite(len(old(sb)[l]) != 0, 1, 0)
 //@   ensures  accounted: printed_len == old(printed_len) + ite(len(old(sb)[l]) != 0, len(old(sb)[l]) + 1, 0)
 //@   ensures  result == nil
-//@   modifies sb, n_print, printed_len
+//@   modifies sb, lx, n_print, printed_len
 
 // ---------------------------------------------------------------- C01/C03/C13/C18: runTarget.Evaluate
 
@@ -172,7 +172,7 @@ package dawn
 //@   requires pending-oneline: forall i: int :: 0 <= i && i < len(sb[f.out]) ==> sb[f.out][i] != 10
 //@   ensures  changed-on-success: result.2 == nil ==> result.1
 //@   ensures  no-stamp-on-failure: result.2 != nil ==> (result.0 == "" && !result.1)
-//@   modifies heap, sb, n_print, printed_len, call_failed
+//@   modifies heap, sb, lx, n_print, printed_len, call_failed
 
 //@ func (*dawn.RunOptions).apply
 //@   requires proj != nil
